@@ -55,7 +55,7 @@ def _gen_worker(key):
         for name, pc in rep.vacuity:
             import z3
             vac.append(dict(name=name, smt2=solve.to_smt2(pc, z3.BoolVal(False))))
-        return dict(key=key, obligations=obs, vacuity=vac, tool_limit=rep.tool_limit, returns=rep.returns, merges=rep.merges,
+        return dict(key=key, obligations=obs, vacuity=vac, tool_limit=rep.tool_limit or rep.soft_limit, returns=rep.returns, merges=rep.merges,
                     dead_paths=rep.dead_paths, dropped=rep.dropped, notes=rep.notes, gen_time=rep.gen_time)
     except Exception as e:
         import traceback
